@@ -36,6 +36,10 @@ def e2(text, note):
 CHECKS.update({
     "C12": e2("Every cell of operation x two mode letters over {a,r,i,f,other} x state present/absent x root present/absent x root keyword/ordinary state x object level (chains of depth 1-3, 1-3 vms, 1-2 images) x check mode, plus skip_types x readonly x addressed-object cells, is executed on the real states.setup over an in-memory backend and compared (outcome, store, touched objects) with the README table transcribed as data; then BFS over check/get/set/unset/push/pop sequences from every initial store against a set-of-names model.",
                "Reference = README table + the root rules documented in the code's messages; in-memory backend registered in BACKENDS as the selftests do; sequence depth 2 (quick) / 3 (thorough)."),
+    "C11": e2("All argument lists of length <=2 (thorough <=3), any order and multiplicity, over an alphabet of 17 (28) only/no/only_vmX/no_vmX/vms/nets/only_nets/K=V/malformed/unknown arguments through the real params_from_cmd; (i) a reference tokenizer written from the README gives the expected test restriction lines, vm restrictions, selected vms, parameters and error class; (ii) an own 20-line matcher for the Cartesian , .. . operators over the universe of flat test and vm variants gives the expected selection, compared with the real parse_flat_nodes / parse_flat_objects; (iii) every K=V is seen by every selected test; documented equivalences compared differentially.",
+               "Trusted: virttest's Cartesian parser for the unrestricted universe; mini-suite with the shipped sets/groups/nets/vms configs."),
+    "C13": e2("Every cell of owner (lxc worker, remote cluster worker) x pool_scope subset x ordered source list (length <=3, thorough 4) over 7 source kinds incl. a foreign gateway re-using the owner's host name x placement of the state among sources and cache x cache validity x show/get/set/unset on the real SourcedStateBackend with a recording transport, against reference scope/closeness functions written from the statement; plus root cells (pool_scope x local/pool root x validity x object type) on RootSourcedStateBackend.",
+               "_show/_get/_set/_unset and the transport are recording stubs (the attributes the selftests substitute); the qcow2 chain transfer itself is not exercised."),
     "C16": e2("All sets of <=3 (thorough 4) parser-shaped names, all insertion orders, all dotted queries of <=3 variants over the alphabet through PrefixTree.get/__contains__ and TestGraph.get_nodes_by_name vs a naive contiguous-subsequence scan; BFS over drop/pick register sequences (depth 3 / 5) on the real bridged nodes of a parsed two-worker graph vs a dict-of-counters model, every counter/worker query compared on every copy.",
                "Names restricted as the statement says (set variant first, no repeated variant); alphabet of 2 set variants and 3-4 inner variants."),
     "C18": e2("BFS over reattach/allocate sequences (depth 3 / 4) replayed on freshly built real VMNetwork objects for 4-5 topologies (1-4 vms, 2-3 nics, prefixes /16../30, shared and separate subnets) with an ipaddress-based invariant after every successful operation; every address of each range handed out once then exhaustion; all 33 prefix lengths both ways; translation for all host offsets of small subnets and boundary offsets of large ones.",
